@@ -557,8 +557,9 @@ class NetworkGraph(AbstractBaseIR):
                 rate_val = rates[slot_indices[0]]
 
                 # Build chain input: use source var directly when group covers all its elements
-                if sorted(src_indices) == list(range(n_src_var)) or n_src_var == 1:
-                    # (a scalar source feeds every slot of the group by broadcasting)
+                if src_indices == list(range(n_src_var)) or n_src_var == 1:
+                    # the slots of the group follow the order of the source vector (edges listed in another order need
+                    # the index array below); a scalar source feeds every slot of the group by broadcasting
                     chain_in = var
                 elif G == 1:
                     chain_in = f"index({var}, {src_indices[0]})"
